@@ -141,6 +141,17 @@ CLAIMED = {
             "flag forwarding of to_si/from_si are compared structurally.",
             "Trusts the partial evaluator (sa/peval.py) and the reference constants in sa/props/c17.py (taken from the property statement and "
             "EPANET's unit definitions); last-ulp rounding and numpy broadcasting semantics are not decided.", "DESIGN.md §4 C17"),
+    "C19": ("formula extraction (AST -> sympy) of the length / elevation / coordinate expressions of _split_or_break_pipe compared as identities in "
+            "the split fraction; argument binding through add_pipe's signature; must-precede ordering of refusals vs mutations; use-analysis of "
+            "the caller's model parameter (copy isolation); guard-conjunct extraction for every remove_link / remove_node of _Skeletonize; "
+            "small dataflow for the exclusion lists; ordering of demand / map hand-over vs removal",
+            "Decides that split and break keep the total length, place the junction at the requested fraction of length, elevation and "
+            "coordinates (with and without vertices), copy diameter / roughness / minor loss into the right parameters, give the new pipe no "
+            "check valve, refuse bad input before mutating, never touch the caller's model when return_copy is true, and that skeletonize removes "
+            "only small unexcluded pipes and unexcluded junctions, excludes everything a control requires, hands demands and map entries of a "
+            "removed junction to one retained Junction before removing it, and restores the duration it changes.",
+            "Does not decide hydraulic equivalence after a split, the merge formulas for roughness / diameter, nor pattern-usage bookkeeping of "
+            "moved demand entries.", "DESIGN.md §4 C19"),
     "C20": ("formula extraction of the metric functions into sympy terms (pandas selections as uninterpreted leaves; references evaluated through the "
             "same extractor); CFG rule for loops that never iterate; call-site argument dataflow for the demand clock; AST rule for the "
             "percentage convention; docstring-table vs default-table comparison",
